@@ -29,7 +29,13 @@ def run(tier):
         jobs.append(dict(base, harness="VerifC15FillIn", params={"ver": bits & 1, "scope": (bits >> 1) & 1, "excl": (bits >> 2) & 1, "where": (bits >> 3) & 1}))
     for bits in range(16):
         jobs.append(dict(base, harness="VerifC15ImportOrder", params={"own": bits & 1, "a": (bits >> 1) & 1, "n": (bits >> 2) & 1, "b": (bits >> 3) & 1}))
+    import itertools
+    fams, names = range(7), range(6)
+    for f0, n0, f1, d0, d1 in itertools.product(fams, names, [0, 1, 3, 4], (0, 1), (0, 1)):
+        if q and (f0 * 5 + n0 * 3 + f1 + d0 + d1) % 3:
+            continue
+        jobs.append(dict(base, harness="VerifC15Profiles", params={"p0f": f0, "p0n": n0, "p0a": (f0 + n0) % 3, "p0d": d0, "p1f": f1, "p1n": 0, "p1a": 0, "p1d": d1}))
     return run_property("C15", tier, [Group("maven", jobs)],
-                        required_covers=["fully resolved", "left unresolved", "resolved", "unresolved", "same key in child and parent", "explicit property named like a prefixed built-in", "nested import against a later import", "a fully specified dependency still takes managed exclusions"],
-                        assumptions=["only the termination / placeholder clause and precedence lemmas are decided (property tables: child over parent, explicit over un-prefixed built-ins, prefixed built-ins over explicit; dependencyManagement imports depth-first in declaration order, first declaration wins; management fills in exactly the empty ones of version, scope and exclusions); equality with Maven's own model builder is outside this technique"],
+                        required_covers=["fully resolved", "left unresolved", "resolved", "unresolved", "same key in child and parent", "explicit property named like a prefixed built-in", "nested import against a later import", "a fully specified dependency still takes managed exclusions", "a profile activated by its OS criteria", "default profiles used because no profile is active", "a default profile left out because another profile is active"],
+                        assumptions=["only the termination / placeholder clause and precedence lemmas are decided (property tables: child over parent, explicit over un-prefixed built-ins, prefixed built-ins over explicit; dependencyManagement imports depth-first in declaration order, first declaration wins; management fills in exactly the empty ones of version, scope and exclusions; profiles: OS criteria family/name/arch not case sensitive with ! negation, all stated criteria must allow the fixed OS, default profiles only when none is active, active profiles' dependencies after the project's and their properties over it); equality with Maven's own model builder is outside this technique"],
                         bounds={"keys": 3, "segments": 2 if q else 3, "arbitrary_subject_len": 5 if q else 7})
